@@ -26,12 +26,12 @@ CHECKS = {
          "Clean runs measure the OS calls of 6-8 workload/option setups; then one process per fault position and class (all positions in the thorough tier, a stride sample in the quick tier). "
          "A plan counts as covered only if its fault really fired (INJECTED counter).", "3 C07"),
  "C02": ("drv_mt xfree scenario + vf_sched", "schedule-controlled execution of real threads (every mi_atomic op / yield / lock a switch point; targeted, uniform and PCT policies; spurious weak-CAS failures), parallel runs with injected delays, ThreadSanitizer; pattern + lifetime-replay oracles",
-         "1200 baton schedules (2-4 threads, 40-300 ops each) on release and debug builds + 12 parallel delay/off runs (4-12 threads, 20-60k ops) + 6 TSan runs per quick run; every block carries a unique-id pattern verified by its current holder; "
+         "~13000 executions of 24 tiny programs (1 owner, 2-3 freeing threads) under ENUMERATED preemptions (script policy: every single preemption of a freeing thread, every pair within 3 switch points x every choice of who runs in the windows, sampled owner preemptions / spurious CAS failures); 1200 baton schedules (2-4 threads, 40-300 ops each) on release and debug builds + 12 parallel delay/off runs (4-12 threads, 20-60k ops) + 6 TSan runs per quick run; every block carries a unique-id pattern verified by its current holder; "
          "all alloc/free events are replayed in timestamp order against an interval map (a block handed out while an intersecting one is live is a violation).", "3 C02"),
  "C08": ("drv_mt prodcons scenario + vf_sched", "schedule-controlled producer/consumer executions; heap walk at quiescence (no area may remain after one forced collect) and per-round area series (bounded memory)",
-         "One owner heap, 1-7 remotely freeing consumers, <= L outstanding blocks; first remote free into full pages, frees racing the owner's list take-over and collects are hit constantly under the targeted policy.", "3 C08"),
+         "Tiny programs with enumerated preemptions (see C02) whose owner heap must count no used block at the end; remote frees into a heap being deleted (heap-delete scenario) must not be lost either; one owner heap, 1-7 remotely freeing consumers, <= L outstanding blocks; first remote free into full pages, frees racing the owner's list take-over and collects are hit constantly under the targeted policy.", "3 C08"),
  "C09": ("drv_mt exit scenario + vf_sched", "schedule-controlled thread termination (natural exit with the destructor running concurrently, or mi_thread_done as a scheduled step) with live blocks handed to survivors and successors adopting abandoned segments; abandoned walk / OS ledger at the end",
-         "T slots x several generations of threads under 5 option settings (reclaim-on-free, forced abandonment, OS segments, reclaim percentage); blocks of terminated threads are read and freed by others; finally nothing abandoned may be left.", "3 C09"),
+         "T slots x several generations of threads under 5 option settings (reclaim-on-free, forced abandonment, OS segments, reclaim percentage); blocks of terminated threads are read and freed by others; finally (all other threads terminated, main and one fresh thread per sub-process force-collected) nothing abandoned may be left, no arena block may still be in use and no OS segment may stay mapped.", "3 C09"),
  "C14": ("drv_mt arena scenario + vf_sched", "schedule-controlled concurrent multi-block claims in one exclusive arena (targeted at bitmap.c / arena.c), stamps + lifetime replay + range check, capacity probes at quiescence",
          "Arenas of 96-160 blocks over PROT_NONE address space; claims of 1-7 blocks straddling bitmap fields, failing when full, rolling back, with purges running; afterwards the whole arena and exactly block_count single-block segments must be allocatable.", "3 C14"),
  "C10": ("drv_seq heaps profile (+ drv_mt heap-delete scenario)", "runtime monitor: shadow model with heap attribution, ownership-query cross-check against every heap, conservation after destroy, default-heap checks; concurrent part under the schedule controller",
@@ -42,7 +42,7 @@ CHECKS = {
  "C12": ("drv_seq walk profile", "runtime monitor: set comparison of mi_heap_visit_blocks output with the shadow model every 64 operations (and mi_abandoned_visit_blocks where forced abandonment is configured)",
          "Every live block reported exactly once with an enclosing range, no dead block, per-area used count, early stop honoured; hole patterns from random/LIFO/FIFO/same-class/neighbour free orders.", "3 C12"),
  "C13": ("drv_seq under option vectors", "pairwise (thorough: 3-wise) covering array over 13 commit/purge/arena options x history profiles, virtual clock, purge-range callback against the shadow model",
-         "Each option vector re-runs the C01/C03/C04/C05/C12 oracles; every madvise(DONTNEED/FREE)/mprotect(PROT_NONE) range is checked against live blocks before it is executed; debug builds really revoke access on decommit.", "3 C13"),
+         "Covering array plus the complete cross of purge_delay x purge_decommits x eager_commit x {arena eager, arena lazy, no arena}; each option vector re-runs the C01/C03/C04/C05/C12 oracles; every madvise(DONTNEED/FREE)/mprotect(PROT_NONE) range is checked against live blocks before it is executed; debug builds really revoke access on decommit.", "3 C13"),
  "C15": ("drv_seq arena profile", "runtime monitor: address-range checks on every returned pointer against mi_arena_area / the region given to mi_manage_os_memory_ex, canary zones, threads terminating with live blocks inside exclusive arenas",
          "1-3 arenas over regions of awkward geometry, bound and unbound heaps allocating the same size classes, bound heaps filled until they refuse (NULL, never memory from elsewhere), adoption of abandoned arena segments "
          "(forced collects, reclaim-on-free, forced abandonment): bound heap => inside its arena, any other heap => outside every exclusive arena.", "3 C15"),
@@ -58,7 +58,7 @@ CHECKS = {
  "C17": ("drv_seq hardening profile", "runtime monitor with injected program errors (double free, overflow byte, forged free-list link) and the registered error callback as observer; shadow-model oracles stay on afterwards in the secure build",
          "~25 attacks per secure-build case inside ordinary histories, one per debug-build case; expected error code must be delivered, no block handed out twice, no address outside OS regions of the allocator.", "3 C17"),
  "C18": ("drv_seq purge profile + OS shim + virtual clock", "OS-ledger monitor under a virtual clock: committed-and-resident bytes after the delay expired with ordinary activity, compared with what a forced collect returns",
-         "purge_delay in {-1,0,5,10,100} x decommit/reset x arena multiplier x {pages, segments, everything}; violation = more than 35% (65% page scenario) of the freed bytes still committed, or any purge with delay -1, or none with delay 0.", "3 C18"),
+         "purge_delay in {-1,0,5,10,100} x decommit/reset x arena multiplier x {pages, segments, everything}; violation = more than 35% (65% page scenario) of the freed bytes still committed, or any purge with delay -1, or none with delay 0. Exact scenarios: whole segments freed at different virtual times into 1-9 arenas over several rounds (arenas), a page freed inside a segment that keeps getting new pages (trickle), hole patterns in the pending-purge mask of one segment (holes): every range the harness knows to be unused for longer than the delay must have 0 committed resident bytes.", "3 C18"),
 }
 
 NOT_YET = {}
